@@ -44,6 +44,7 @@ struct jls_twr_s {
     volatile uint64_t flush_send_id;
     volatile uint64_t flush_processed_id;
     uint8_t fsr_entry_size_bits[JLS_SIGNAL_COUNT];
+    uint8_t signal_defined[JLS_SIGNAL_COUNT];   // 1 = signal defined (any signal type)
     struct jls_mrb_s mrb;
     uint8_t mrb_buffer[];
 };
@@ -224,6 +225,8 @@ int32_t jls_twr_open(struct jls_twr_s ** instance, const char * path) {
     self->flush_send_id = 0;
     self->flush_processed_id = 0;
     memset(self->fsr_entry_size_bits, 0, sizeof(self->fsr_entry_size_bits));  // 0 = signal not defined
+    memset(self->signal_defined, 0, sizeof(self->signal_defined));
+    self->signal_defined[0] = 1;  // the global annotation signal always exists
 
     jls_mrb_init(&self->mrb, self->mrb_buffer, MRB_BUFFER_SIZE);
     self->bk = jls_bkt_initialize(self);
@@ -329,8 +332,11 @@ int32_t jls_twr_source_def(struct jls_twr_s * self, const struct jls_source_def_
 int32_t jls_twr_signal_def(struct jls_twr_s * self, const struct jls_signal_def_s * signal) {
     jls_bkt_process_lock(self->bk);
     int32_t rv = jls_wr_signal_def(self->wr, signal);
-    if ((0 == rv) && (signal->signal_type == JLS_SIGNAL_TYPE_FSR)) {  // rv == 0 implies signal_id < JLS_SIGNAL_COUNT
-        self->fsr_entry_size_bits[signal->signal_id] = jls_datatype_parse_size(signal->data_type);
+    if (0 == rv) {  // rv == 0 implies signal_id < JLS_SIGNAL_COUNT
+        self->signal_defined[signal->signal_id] = 1;
+        if (signal->signal_type == JLS_SIGNAL_TYPE_FSR) {
+            self->fsr_entry_size_bits[signal->signal_id] = jls_datatype_parse_size(signal->data_type);
+        }
     }
     jls_bkt_process_unlock(self->bk);
     return rv;
@@ -338,6 +344,9 @@ int32_t jls_twr_signal_def(struct jls_twr_s * self, const struct jls_signal_def_
 
 int32_t jls_twr_user_data(struct jls_twr_s * self, uint16_t chunk_meta,
                           enum jls_storage_type_e storage_type, const uint8_t * data, uint32_t data_size) {
+    if (((int) storage_type < JLS_STORAGE_TYPE_INVALID) || (storage_type > JLS_STORAGE_TYPE_JSON)) {
+        return JLS_ERROR_PARAMETER_INVALID;  // report it here, the writer thread cannot
+    }
     if (((storage_type == JLS_STORAGE_TYPE_STRING) || (storage_type == JLS_STORAGE_TYPE_JSON)) && (NULL != data)) {
         data_size = (uint32_t) strlen((const char *) data) + 1;  // data_size is documented as ignored for strings
     }
@@ -398,6 +407,9 @@ int32_t jls_twr_fsr_f32(struct jls_twr_s * self, uint16_t signal_id,
 }
 
 int32_t jls_twr_fsr_omit_data(struct jls_twr_s * self, uint16_t signal_id, uint32_t enable) {
+    if ((signal_id >= JLS_SIGNAL_COUNT) || (0 == self->fsr_entry_size_bits[signal_id])) {
+        return JLS_ERROR_NOT_FOUND;  // not a defined FSR signal: report it here, the writer thread cannot
+    }
     struct msg_header_s hdr = {
             .msg_type = MSG_FSR_OMIT,
             .h = {
@@ -417,6 +429,12 @@ int32_t jls_twr_annotation(struct jls_twr_s * self, uint16_t signal_id, int64_t 
                            uint8_t group_id,
                            enum jls_storage_type_e storage_type,
                            const uint8_t * data, uint32_t data_size) {
+    if ((signal_id >= JLS_SIGNAL_COUNT) || !self->signal_defined[signal_id]) {
+        return JLS_ERROR_NOT_FOUND;  // report it here, the writer thread cannot
+    }
+    if (((int) storage_type < JLS_STORAGE_TYPE_BINARY) || (storage_type > JLS_STORAGE_TYPE_JSON)) {
+        return JLS_ERROR_PARAMETER_INVALID;
+    }
     if (((storage_type == JLS_STORAGE_TYPE_STRING) || (storage_type == JLS_STORAGE_TYPE_JSON)) && (NULL != data)) {
         data_size = (uint32_t) strlen((const char *) data) + 1;  // data_size is documented as 0 for strings
     }
@@ -438,6 +456,9 @@ int32_t jls_twr_annotation(struct jls_twr_s * self, uint16_t signal_id, int64_t 
 }
 
 JLS_API int32_t jls_twr_utc(struct jls_twr_s * self, uint16_t signal_id, int64_t sample_id, int64_t utc) {
+    if ((signal_id >= JLS_SIGNAL_COUNT) || (0 == self->fsr_entry_size_bits[signal_id])) {
+        return JLS_ERROR_NOT_FOUND;  // not a defined FSR signal: report it here, the writer thread cannot
+    }
     struct msg_header_s hdr = {
             .msg_type = MSG_UTC,
             .h = {
